@@ -232,7 +232,7 @@ def run_history(netname, seq, forms, want_zero=True, nsteps=NSTEPS, incremental=
                     viol("zero_g_not_isolated", backend, f"max dev from unconnected={err0}")
         if not zero_g and moved > 1e-6:
             out["digests"].append(digest(sorted(seq)) + ":" + netname)
-        if not zero_g and seq and len(seq) <= 3 and not incremental:
+        if not zero_g and seq and len(seq) <= (3 if nsteps == 1 else 2) and not incremental:
             # the SAME network object, after it was simulated: silence every synapse through its synapse-type view and simulate
             # again -- every cell must now behave as if simulated alone (values set through views must reach the next simulation)
             try:
@@ -328,8 +328,15 @@ def _long_histories(tier):
 def explore(ctx):
     hs = _histories(ctx.tier) + _long_histories(ctx.tier)
     # the same histories with every edge customised right after its own connect (quick: those of length 2-3, every 8th long one)
-    inc = [dict(h, incremental=True, zero=False) for k, h in enumerate(hs)
-           if len(h["seq"]) >= 2 and (not h.get("long") or k % (8 if ctx.tier == "quick" else 2) == 0)]
+    # (thorough: all of length 2, every 3rd of length 3, every 4th long one -- the full doubling does not finish in hours)
+    def _inc(k, h):
+        if len(h["seq"]) < 2:
+            return False
+        if h.get("long"):
+            return k % (8 if ctx.tier == "quick" else 4) == 0
+        return ctx.tier == "quick" or len(h["seq"]) == 2 or k % 3 == 0
+
+    inc = [dict(h, incremental=True, zero=False) for k, h in enumerate(hs) if _inc(k, h)]
     hs = hs + inc
     nets = ["hetero", "level_homog"]
     ctx.note("alphabet_edges", len(ALPHABET))
